@@ -6,6 +6,7 @@ import CSD.Generated.Bodies
 import CSD.Model.SourceText
 import CSD.Lemmas.PFCIter
 import CSD.Lemmas.IdIter
+import CSD.Lemmas.FM17
 
 namespace CSD.Props.C13
 open CSD CSD.PFC
@@ -58,5 +59,23 @@ theorem models_match_source_text :
     Generated.body_PFC_ctor = SourceText.body_PFC_ctor ∧
     Generated.body_PFC_getHeader = SourceText.body_PFC_getHeader ∧
     Generated.body_PFC_decodeNextString = SourceText.body_PFC_decodeNextString := ⟨rfl, rfl, rfl⟩
+
+
+/-! ### FMINDEX -/
+
+/-- `StringDictionaryFMINDEX::extractTable`: the iterator (`IteratorDictStringFMINDEX`: row 2 for the last ID,
+`ID + 3` otherwise, one `extract_id` per `next`) yields exactly the members in ID order — the `k`-th string is
+`extract(k)` — and `hasNext` becomes false after the last one; every `extract_id` stays inside the index and
+its result buffer. For every valid `S`, every suffix array of its text and every index built from it. -/
+theorem fmindex_table_scan_exact {S : List Str} {L : List FM.Row} {d : FM.Dict} (hv : validDict S = true)
+    (hd : FM.DictOK S L d) (hml : ∀ s ∈ S, s.length < d.maxlength) :
+    d.extractTable = some (S.map FM.symsOf) := FM.extractTable_spec hv hd hml
+
+/-- A scan over the IDs `i + 1 … i + k` (what `extractPrefix` opens on the range of `locatePrefix`) yields
+`S[i], …, S[i + k - 1]`. -/
+theorem fmindex_range_scan_exact {S : List Str} {L : List FM.Row} {d : FM.Dict} (hv : validDict S = true)
+    (hd : FM.DictOK S L d) (hml : ∀ s ∈ S, s.length < d.maxlength) (k i : Nat) (h : i + k ≤ S.length) :
+    d.drain k { processed := i + 1, scanneable := i + k + 1, last := d.elements }
+      = some (((S.drop i).take k).map FM.symsOf) := FM.drain_spec hv hd hml k i k h (Nat.le_refl _)
 
 end CSD.Props.C13
